@@ -324,8 +324,36 @@ def unbounded_plate_models(wj):
     return out
 
 
+def unbounded_spline_models(wj):
+    """mass conserving slab temperature models with the spline switched on and no `max distance slab top` (default: unbounded): the spline samples the analytic solution at
+    multiples of that distance"""
+    out = []
+    def visit(node):
+        if isinstance(node, dict):
+            if node.get("model") == "mass conserving" and node.get("apply spline") is True and "max distance slab top" not in node:
+                out.append(node)
+            for v in node.values():
+                visit(v)
+        elif isinstance(node, list):
+            for v in node:
+                visit(v)
+    visit(wj or {})
+    return out
+
+
 def diagnose(wj, cmd, loc):
     """name the cause of a non-finite answer where it is a recorded one; otherwise the location class"""
+    if wj is not None and cmd.split()[0] in ("q3", "q2", "t3", "t2") and unbounded_spline_models(wj):
+        w2 = copy.deepcopy(wj)
+        for m in unbounded_spline_models(w2):
+            m["max distance slab top"] = 200e3
+        path = os.path.join(proto.workdir("C13"), "diag.wb")
+        json.dump(w2, open(path, "w"))
+        rc, out, err = proto.run_harness(["world w %s 3" % path, cmd])
+        if rc == 0 and len(out) == 2:
+            a = parse_answer(out[1])
+            if a[0] == "ok" and all(math.isfinite(v) for v in a[1]):
+                return "degenerate-parameter:mass-conserving-spline-unbounded-max-distance"
     if wj is not None and cmd.split()[0] in ("q3", "q2", "t3", "t2") and unbounded_plate_models(wj):
         # confirm: with a bounded plate thickness the same query answers with finite numbers
         w2 = copy.deepcopy(wj)
